@@ -202,6 +202,34 @@ pub fn rip_state_cases(thorough: bool, seed: u64) -> Vec<GCase> {
         drawers.push("|E|e|*|H|>".to_string());
     }
     let mut out = vec![];
+    // flood fill is the one primitive whose work depends on what is already on the canvas: border shapes drawn BEFORE and AFTER a
+    // view port is set (so that border pixels lie inside, outside and on the edges of it) x fill style x seed point x border colour
+    {
+        let vps: [(i32, i32, i32, i32); 5] = [(0, 0, 639, 349), (10, 10, 100, 100), (320, 0, 639, 175), (100, 50, 500, 300), (100, 0, 639, 349)];
+        let shapes: [String; 4] = [format!("|R{}{}{}{}", p2(20), p2(20), p2(600), p2(300)), format!("|C{}{}{}", p2(320), p2(170), p2(120)),
+                                   format!("|L{}{}{}{}", p2(550), p2(0), p2(550), p2(349)), format!("|R{}{}{}{}|L{}{}{}{}", p2(110), p2(60), p2(480), p2(280), p2(400), p2(0), p2(400), p2(349))];
+        let styles = ["|S0100", "|S010F", "|S0201", "|S0B09"];
+        let seeds: [(i32, i32); 6] = [(0, 0), (5, 5), (150, 100), (320, 170), (399, 10), (538, 248)];
+        let mut k = 0;
+        for vp in vps {
+            for (si, sh) in shapes.iter().enumerate() {
+                for (ti, sty) in styles.iter().enumerate() {
+                    for (pi, pt) in seeds.iter().enumerate() {
+                        if !thorough && (k + seed as usize) % 3 != 0 { k += 1; continue; }
+                        k += 1;
+                        let v = format!("|v{}{}{}{}", p2(vp.0), p2(vp.1), p2(vp.2), p2(vp.3));
+                        let border = if (si + ti + pi) % 2 == 0 { 15 } else { 4 };
+                        let fill = format!("|F{}{}{}", p2(pt.0), p2(pt.1), p2(border));
+                        // shape first, then the view port (the agent of a BBS draws the frame, then restricts the view port), and the reverse
+                        let a = format!("!|c0F{sh}{v}{sty}{fill}|#|#|#\r\n");
+                        let b = format!("!{v}|c0F{sh}{sty}{fill}|c04{fill}|#|#|#\r\n");
+                        out.push(GCase { id: format!("s-rip-fill-{k}a"), emu: "rip".into(), bytes: a.into_bytes() });
+                        out.push(GCase { id: format!("s-rip-fill-{k}b"), emu: "rip".into(), bytes: b.into_bytes() });
+                    }
+                }
+            }
+        }
+    }
     for (i, st) in setters.iter().enumerate() {
         // the view port / text window decide which pixels exist for every later primitive: all drawers, in every tier
         let per = if thorough || st.starts_with("|v") || st.starts_with("|w") { drawers.len() } else { 4 };
